@@ -22,9 +22,9 @@ func init() {
 			"BelowNull < AboveNull < Below(k) < Above(k) < AboveAll with Below(k1)/Above(k2) resolved by the key order and ties to Below, hence (O3) is antisymmetric, reflexive only on equal kind+key and " +
 			"transitive over all 125 kind triples under all 13 weak orderings of three keys (checked directly on the extracted table as well); (B) the TypeAsLowerBound/TypeAsUpperBound " +
 			"constant tables agree with that order (a bound is closed exactly when the cut lies on the far side of its key); (M) GetMySQLRangeCutMax/Min replace the running extreme exactly on " +
-			"the sign that means 'candidate is larger/smaller'; (K) MySQLRangeCutIsBinding/GetMySQLRangeCutKey cover every kind and treat exactly the keyed kinds as binding; (T) the interval tree behind RemoveOverlappingRanges keeps its Parent pointers coupled with every child-pointer store and its two rotations are mirror images.",
-		NotCovered: "RemoveOverlappingRanges' merging logic, the interval tree's balancing/colour/MaxUpperbound invariants (only its pointer coupling is decided), multi-column range algebra, the key comparison itself (Type.Compare: see C26) and value conversion in compareRangeCuts for extended types",
-		Technique:  "finite-domain abstract interpretation (AST folding over kind x kind x sign) + order-law checking on the extracted table",
+			"the sign that means 'candidate is larger/smaller'; (K) MySQLRangeCutIsBinding/GetMySQLRangeCutKey cover every kind and treat exactly the keyed kinds as binding; (T) the interval tree behind RemoveOverlappingRanges keeps its Parent pointers coupled with every child-pointer store and its two rotations are mirror images; (P1) purity of the range algebra: every function of package sql that has a receiver or parameter of a range slice type (MySQLRange, MySQLRangeCollection, []MySQLRange, []MySQLRangeColumnExpr: slices with value semantics whose operands the callers keep using) only reads it — SSA taint from the operand through re-slices, element slices, phi, conversions, interface boxing, local and captured variables and append results reaches no element store, no append onto an upper-bounded re-slice (x[:k]), no copy() destination and no sort.*/slices.Sort* argument, so Intersect/Overlaps/Subtract/TryUnion/RemoveOverlap/replace/… build their results in fresh storage and never narrow an operand under a caller that pairs it with further ranges.",
+		NotCovered: "P1: writes through struct fields holding an operand (rangeColumnExprSlice.ranges under sort.Sort, tree nodes), operands handed to other packages, element slices copied into a fresh collection and modified there, append onto the full operand (writes beyond its length only), order-only permutations (NewIndexLookup reversal: named exception); RemoveOverlappingRanges' merging logic, the interval tree's balancing/colour/MaxUpperbound invariants (only its pointer coupling is decided), multi-column range algebra, the key comparison itself (Type.Compare: see C26) and value conversion in compareRangeCuts for extended types",
+		Technique:  "finite-domain abstract interpretation (AST folding over kind x kind x sign) + order-law checking on the extracted table + SSA taint (operand slices -> store/append/copy/sort sinks) for purity",
 		Run:        func(c *Ctx) { runC46(c, "sql") },
 		Fixture: func(c *Ctx, fx *Prog) {
 			expectFixture(c, fx, "c46: Above.Compare(Below) with ties resolved the wrong way must break the reference order and antisymmetry",
@@ -298,6 +298,9 @@ func runC46(c *Ctx, sqlRel string) {
 	}
 
 	c46Tree(c, pk)
+	if !c.fixtureMode {
+		c46Purity(c, pk, 34)
+	}
 
 	// ---- K: kind coverage helpers ---------------------------------------------------------
 	for _, h := range []string{"MySQLRangeCutIsBinding", "GetMySQLRangeCutKey"} {
